@@ -19,6 +19,8 @@ def main():
     for it in items:
         bid, _, pl = it.partition(":")
         wt, out = f"{base}/{bid}-wt", f"{base}/{bid}-out"
+        if not pl and os.path.exists(f"{out}/props.txt"):
+            pl = open(f"{out}/props.txt").read().strip()
         env = {"PYTHONPATH": wt, "PYTHONHASHSEED": "0"}
         if not all(os.path.exists(f"{out}/{f}") for f in ("patch.diff", "meta.json")):
             print(bid, "MISSING files"); ok_all = False; continue
